@@ -129,7 +129,7 @@ def run_model_vm(requests, expected, name, timeout=600):
             f.write('Definition cases : list (sexp * sexp) := [\n')
             f.write(';\n'.join(f'({coq_term(r)}, {coq_term(e)})' for r, e in zip(reqs, exps)))
             f.write('].\n')
-            f.write('Definition bad := map (fun p => if sexp_eqb (run (fst p)) (snd p) then 0 else 1) cases.\n')
+            f.write('Definition bad := map (fun p => if sexp_eqb (dispatch (fst p)) (snd p) then 0 else 1) cases.\n')
             f.write('Eval vm_compute in bad.\n')
         proc = subprocess.run(['coqc', '-Q', os.path.join(COQ, 'theories'), 'Dznpy', path],
                               stdout=subprocess.PIPE, stderr=subprocess.STDOUT, timeout=timeout,
